@@ -298,7 +298,7 @@ impl<Key, Value> CacheD<Key, Value>
         let updated_weight = match update_response.type_of_expiry_update() {
             TypeOfExpiryUpdate::Added(key_id, expiry) => {
                 self.ttl_ticker.put(key_id, expiry);
-                updated_weight.or_else(|| Some(existing_weight + Calculation::ttl_ticker_entry_size() as i64))
+                updated_weight.or_else(|| Some(existing_weight.saturating_add(Calculation::ttl_ticker_entry_size() as i64)))
             }
             TypeOfExpiryUpdate::Deleted(key_id, expiry) => {
                 self.ttl_ticker.delete(&key_id, &expiry);
